@@ -171,6 +171,9 @@ func parsePacketAdaptationField(i *astikit.BytesIterator) (a *PacketAdaptationFi
 	// Length
 	a.Length = int(b)
 
+	// An adaptation field of length 0 is a single stuffing byte: it must be written back as such
+	a.IsOneByteStuffing = a.Length == 0
+
 	afStartOffset := i.Offset()
 
 	// Valid length
